@@ -175,6 +175,7 @@ func TestSubscriptionManager(t *testing.T) {
 		ratio := rapid.SampledFrom([]float32{0, 1}).Draw(rt, "ratio")
 		count := rapid.SampledFrom([]int{0, 1, 10000}).Draw(rt, "count")
 		h := newHist(check, fmt.Sprintf("max=%d,cleanupRatio=%v,cleanupCount=%d", max, ratio, count))
+		defer h.guard(rt)
 		var opts []options.Option[subMgr]
 		if max != 0 || rapid.Bool().Draw(rt, "explicitZero") {
 			opts = append(opts, subscriptionmanager.WithMaxTopicSubscriptionsPerClient[int, int](max))
